@@ -258,4 +258,13 @@ def r13_play(ctx):
         ctx.functions.add(q)
 
 
-RULES = [('R13-iter', r13_iter), ('R13-units', r13_units), ('R13-play', r13_play)]
+def r13_premises(ctx):
+    """Timing is computed over the merged track of the file's current contents: the merge puts every event at its absolute
+    tick in (tick, track, index) order (shared with C12) and is recomputed from the tracks as they are now (shared with C16)."""
+    from . import c12, c16
+    ctx.borrow(c12.r12_scenarios, 'R13.0')
+    ctx.borrow(c16.r16_1, 'R13.0')
+    ctx.borrow(c16.r16_3, 'R13.0')
+
+
+RULES = [('R13-iter', r13_iter), ('R13-units', r13_units), ('R13-play', r13_play), ('R13.0', r13_premises)]
